@@ -694,6 +694,111 @@ def pair_task(payload):
         build.drop_module(mod)
 
 
+# ---------------------------------------------------------------------------------------------
+# A2 discharged for mashumaro's own exceptions: the dispatcher's handlers around the variant call
+# (`except (KeyError, AttributeError)`) must not absorb an error a callee unit raises by contract -
+# in a two-level hierarchy the callee is itself a discriminator function.
+# ---------------------------------------------------------------------------------------------
+A2_SRC = {
+    "MissingDiscriminatorError": ('''
+@dataclass
+class Base(DataClassDictMixin):
+    class Config(BaseConfig):
+        discriminator = Discriminator(field="kind", include_subtypes=True)
+@dataclass
+class Mid(Base):
+    kind = "mid"
+    class Config(BaseConfig):
+        discriminator = Discriminator(field="action", include_subtypes=True)
+@dataclass
+class Leaf(Mid):
+    action = "leaf"
+    x: int = 0
+''', "Base.from_dict({'kind': 'mid'})"),
+    "MissingField": ('''
+@dataclass
+class Base(DataClassDictMixin):
+    class Config(BaseConfig):
+        discriminator = Discriminator(field="kind", include_subtypes=True)
+@dataclass
+class Leaf(Base):
+    kind = "leaf"
+    x: int
+''', "Base.from_dict({'kind': 'leaf'})"),
+}
+
+
+def handler_names(fn):
+    """exception class names caught by handlers whose try body returns a variant call (field mode)"""
+    out = set()
+    for n in ast.walk(fn):
+        if isinstance(n, ast.Try) and any(isinstance(b, ast.Return) for b in n.body):
+            for h in n.handlers:
+                t = h.type
+                for e in (t.elts if isinstance(t, ast.Tuple) else [t]):
+                    if isinstance(e, ast.Name):
+                        out.add(e.id)
+    return out
+
+
+def a2_task(payload):
+    (pid,) = payload
+    import builtins
+    import os
+
+    import mashumaro.exceptions as mexc
+
+    p = DPoint()
+    src = hierarchy_source(p)
+    mod, recs = build.build_module(src)
+    try:
+        hs = set()
+        for r in recs:
+            for n in ast.parse(r.text).body:
+                if isinstance(n, ast.FunctionDef) and n.name.startswith("__unpack_") and "variant" in r.text:
+                    hs |= handler_names(n)
+    finally:
+        build.drop_module(mod)
+    hs.discard("Exception")
+    handlers = [getattr(builtins, h) for h in sorted(hs) if isinstance(getattr(builtins, h, None), type)]
+    if not handlers:
+        return {"obligations": [dict(id=f"{pid}.A2/handlers", status="error", detail="no handler around a variant call found in the field-mode discriminator function")]}
+    # the exception classes of mashumaro/exceptions.py, read from its source
+    tree = ast.parse(open(os.path.join(os.path.dirname(mexc.__file__), "exceptions.py")).read())
+    obs = []
+    for n in tree.body:
+        if not isinstance(n, ast.ClassDef):
+            continue
+        E = getattr(mexc, n.name, None)
+        if not (isinstance(E, type) and issubclass(E, BaseException)):
+            continue
+        caught = [h.__name__ for h in handlers if issubclass(E, h)]
+        ob = dict(id=f"{pid}.A2/{n.name}", unit=f"class {n.name}({', '.join(ast.unparse(b) for b in n.bases)})  vs  except ({', '.join(h.__name__ for h in handlers)}) around the variant call",
+                  status="proved" if not caught else "refuted", backend="enumeration",
+                  detail="" if not caught else f"{n.name} is a {caught[0]}: raised by the chosen variant's own unpacker it is absorbed by the dispatcher's handler and re-reported as an unknown tag")
+        if caught:
+            wsrc = A2_SRC.get(n.name)
+            w = None
+            if wsrc:
+                full = g4.PRELUDE + "from mashumaro.types import Discriminator\n" + wsrc[0]
+                try:
+                    m2, _ = build.build_module(full)
+                    try:
+                        try:
+                            got = repr(eval(wsrc[1], vars(m2)))
+                        except Exception as e:  # noqa
+                            got = type(e).__name__
+                        if got != n.name:
+                            w = {"confirmed": True, "source": full, "input": wsrc[1], "got": got, "expected": f"raises {n.name}", "why": f"{wsrc[1]} gives {got}, expected {n.name}"}
+                    finally:
+                        build.drop_module(m2)
+                except Exception:  # noqa
+                    w = None
+            ob["witness"] = w
+        obs.append(ob)
+    return {"obligations": obs}
+
+
 def history_task(payload):
     pid, p = payload
     w = history_battery(p)
@@ -711,7 +816,7 @@ def check(pid, tier):
             crashes.append(r["crash"] + " @ " + r["payload"] + "\n" + r["trace"][-700:])
         else:
             obs.extend(r["obligations"])
-    for r in runner.run_pool(pair_task, [(pid,)], chunks=1):
+    for r in runner.run_pool(pair_task, [(pid,)], chunks=1) + runner.run_pool(a2_task, [(pid,)], chunks=1):
         if "crash" in r:
             crashes.append(r["crash"] + " @ " + r["payload"] + "\n" + r["trace"][-700:])
         else:
@@ -751,7 +856,7 @@ def check(pid, tier):
         technique="contract + representation invariant on the real generated discriminator function: symbolic execution (pysym, z3) for an arbitrary mapping and an arbitrary registry state satisfying INV, loop over the concrete hierarchy unrolled; slot obligation (own unpacker) per variant call; history quantifier by invariant; bounded concrete histories as stand-in/witness finder",
         units=len(pts),
         extra_cov={"points": len(pts), "explanation": "Config / Annotated-field discriminators x field / no-field x include_subtypes/supertypes x mixin/plain variants x hierarchy shapes (flat, chain, untagged middle class, diamond) x variant_tagger_fn (scalar, list)"},
-        trusted={"A2/C05: a variant's own unpacker raises only the documented exceptions (not KeyError/AttributeError)", "tags are unique among eligible classes (checked concretely per point)",
+        trusted={"A2/C05: user code reached from a variant's unpacker (hooks, strategies) does not raise KeyError/AttributeError; for mashumaro's own exception classes this is the discharged obligation A2/<class>", "tags are unique among eligible classes (checked concretely per point)",
                  "registry keys are compared by term equality", "iter_all_subclasses is the real helper run on the concrete hierarchy of the point"},
         functions=["DiscriminatedUnionUnpackerBuilder._add_body / _add_build_variant_unpacker / _add_register_variant_tags (through the generated function)", "helpers.iter_all_subclasses (executed)"],
         bounded=bounded,
